@@ -69,10 +69,19 @@ func doAclCheck(method string, path string, token *jwt.Token, core *security.Ser
 		return echo.NewHTTPError(http.StatusForbidden, "user does not have permission")
 	}
 
-	// get the method
-	action := "read"
-	if method == "DELETE" || method == "POST" {
-		action = "write"
+	// every method that can change state needs write access; PUT and PATCH (job operations, dataset
+	// rename) used to pass with a read grant. POST /query only reads.
+	action := "write"
+	if method == http.MethodGet || method == http.MethodHead || method == http.MethodOptions ||
+		(method == http.MethodPost && path == "/query") {
+		action = "read"
+	}
+
+	// an explicit deny entry is not overridden by any allow entry
+	for _, ac := range acl {
+		if core.CheckDenied(ac, path, action) {
+			return echo.NewHTTPError(http.StatusForbidden, "user does not have permission")
+		}
 	}
 
 	for _, ac := range acl {
